@@ -49,7 +49,7 @@ PROPS = {
     ),
     "C05": dict(
         facts=True,
-        families=[dict(name="edits", args=["-specs", "6,26"]), dict(name="tree", args=["-specs", "15"]), dict(name="same")],
+        families=[dict(name="edits", args=["-specs", "6,26"]), dict(name="tree", args=["-specs", "15"]), dict(name="same"), dict(name="pipe", args=["-specs", "6"])],
         level_text="Theorems C05_iff (ContentsMatch is true exactly when the workspace entry, links followed, equals the "
                    "tree the recorded checksum stands for and that tree is in the cache), C05_file_iff, C05_skip, "
                    "C05_after_commit, C05_short_circuit_agrees, C05_same_contents (whole-buffer comparison = byte "
@@ -209,7 +209,7 @@ PROPS = {
         assumptions=["H collision-free; cache entries sorted (harness canonical form)"],
     ),
     "C16": dict(
-        families=[dict(name="hist", args=["-specs", "7"]), dict(name="tree", args=["-specs", "7"])],
+        families=[dict(name="hist", args=["-specs", "7"]), dict(name="tree", args=["-specs", "7"]), dict(name="effects", args=["-specs", "7"])],
         level_text="Theorems C16_function (the recorded checksum equals merkle(path, norec, logical content), a pure function "
                    "that mentions neither strategy nor cache nor old manifest), C16_skip, C16_injective, "
                    "C16_listing_order, C16_dedup. Tied to the code by recomputing, inside Coq with the Gallina BLAKE3 "
@@ -240,8 +240,12 @@ PROPS = {
         level_text="Theorems C18_stage_paths (every artifact path and working dir of an accepted stage, joined to any Clean "
                    "absolute root as filepath.Join does, stays at or below the root), C18_stage_rejects, C18_manifest "
                    "(every entry of a decodable manifest lands exactly one level below its directory), "
-                   "C18_writes_inside (at any nesting depth), C18_hostile_names. Tied to the code by hostile stage files "
-                   "('..' at every position, absolute paths, as output / input / working dir) through `dud stage add` "
+                   "C18_writes_inside (at any nesting depth), C18_hostile_names, C18_index_line_inside / "
+                   "C18_index_line_rejects / C18_hostile_index_noop (an index line is accepted exactly when the stage "
+                   "file it names lies below the root; one hostile line makes every command a no-op). Tied to the code "
+                   "by hostile stage files "
+                   "('..' at every position, absolute paths, as output / input / working dir) through `dud stage add`, "
+                   "hostile index lines (../x, absolute, a/../../x) under commit / checkout / status / run / graph, "
                    "and hostile manifests (../x, ../../x, /abs, a/b, '.', '..', empty, path != key, NUL) through checkout, "
                    "checkout --copy, commit, status and pull, with a sentinel tree around the project hashed before and "
                    "after every command.",
